@@ -16,6 +16,11 @@ impl<'a> Src<'a> {
         Src { data, pos: 0 }
     }
 
+    /// An independent source continuing at the current position (the original does not advance).
+    pub fn fork(&self) -> Src<'a> {
+        Src { data: self.data, pos: self.pos }
+    }
+
     pub fn exhausted(&self) -> bool {
         self.pos >= self.data.len()
     }
